@@ -14,7 +14,7 @@ import z3
 
 from pyvc.verify import (Contract, Obj, Stream, Int, Box, OneOf, NoneT, Const,
                          Custom, Str, Bytes, Bool, Tup, SymDict)
-from pyvc.values import (VStr, VInt, VNone, VBox, VRef, VTuple, VConc, VFunc,
+from pyvc.values import (L_len, L_at, VStr, VInt, VNone, VBox, VRef, VTuple, VConc, VFunc,
                          VBool, DictCell, ListCell, ObjCell, StreamCell, Val,
                          box, is_concrete_str, concrete_str, Unsupported)
 from specs import sections as SP
@@ -69,7 +69,12 @@ def writer_spec(only_prev=None):
 def ghost(it, env):
     w = it.ctx.cell(env['self'])
     fp = it.ctx.cell(w.attrs['fp'])
-    return {'out0': VStr(fp.data, True)}
+    from pyvc import lists
+    from pyvc.values import SeqCell, SeqString
+    return {'out0': VStr(fp.data, True),
+            # placeholder until the indentation loop names its line list
+            'lines_g': it.ctx.alloc(SeqCell(
+                lists.fresh_list(it.ctx, SeqString, 'nolines'), 'bytes'))}
 
 
 def opt_encoding():
@@ -180,7 +185,7 @@ def f_render_header(it, args, kw):
     return VStr(z3.Concat(*parts), True)
 
 
-def register(engine, only_prev=None):
+def register(engine, only_prev=None, own_prepare=False):
     from pyvc import extract
     errs = extract.load_module('pydiffx.errors')[0]
     for n in INLINE:
@@ -254,6 +259,10 @@ def register(engine, only_prev=None):
                 'version not in ("1.0",) and fp_data(fp) == out0',
                 UnicodeEncodeError: 'fp_data(fp) == out0'},
     ))
+
+    if own_prepare:
+        register_prepare(engine, only_prev)
+        return engine
 
     # ---- _prepare_content as seen from its call site -------------------
     def prep_effect(it, bound):
@@ -383,3 +392,89 @@ def register(engine, only_prev=None):
             'encoding=encoding, length=len(prepared()), '
             'line_endings=prepared_le(), type=diff_type')
     return engine
+
+
+def register_prepare(engine, only_prev=None):
+    """_prepare_content verified against the specification's `Prepare`."""
+    from pyvc import extract
+    from contracts import text_utils as T
+    errs = extract.load_module('pydiffx.errors')[0]
+    T.register_callsite(engine)
+
+    def loop_prepare(it):
+        ctx = it.ctx
+        fr = ctx.frame
+        lines = ctx.cell(fr.locals['lines'])
+        ind = fr.locals['indent_str']
+        ctx.ghost_env['lines_g'] = fr.locals['lines']
+        # definitional unfolding of IndentedPrefix at 0
+        ctx.assume(T.F_IndentedPrefix(lines.e, z3.IntVal(0), ind.e) == S(''))
+
+    def loop_head(it):
+        ctx = it.ctx
+        fr = ctx.frame
+        lines = ctx.cell(fr.locals['lines'])
+        ind = fr.locals['indent_str']
+        k = z3.Int('unfold_k')
+        ctx.assume_forall(k, z3.Implies(
+            z3.And(k >= 0, k < L_len(lines.e)),
+            T.F_IndentedPrefix(lines.e, k + 1, ind.e) == z3.Concat(
+                T.F_IndentedPrefix(lines.e, k, ind.e), ind.e,
+                L_at(lines.e, k))))
+
+    c = Contract(
+        QN + '_prepare_content',
+        params={'self': writer_spec(only_prev),
+                'content': OneOf(Str(), Bytes(), NoneT(), Int()),
+                'indent': OneOf(NoneT(), Int()),
+                'line_endings': Box(),
+                'encoding': opt_encoding(),
+                'inherit_encoding': Bool()},
+        ghost=ghost,
+        setup=snapshot_state,
+        requires=[('indent_nonneg', 'indent is None or indent >= 0')],
+        loops={0: dict(
+            prepare=loop_prepare, at_head=loop_head, index='_k',
+            havoc=['stream.data', 'stream.pos'],
+            invariant=[('indented', 'stream_data(stream) == '
+                                    'IndentedPrefix(lines, _k, indent_str)'),
+                       ('grows', 'len(stream_data(stream)) >= _k')],
+        )},
+        ensures=[
+            ('pure', 'state_unchanged(self)'),
+            ('nonempty', 'len(result[0]) > 0'),
+            ('kind', 'result[1] in ("unix", "dos") and '
+                     '(line_endings is None or result[1] == line_endings)'),
+        ],
+        internal_ensures=[
+            # C04 (writer side): which encoding is used
+            ('effective_encoding',
+             'encoding == (old(encoding) if old(encoding) is not None else '
+             '(stack_top_encoding(self) if inherit_encoding else None))'),
+            # C02: the block ends in the newline; indentation after encoding
+            ('ends_with_newline', 'content.endswith(newline)'),
+            ('no_indent', 'implies(not indent, result[0] == content)'),
+            ('indent_every_line',
+             'implies(indent, result[0] == IndentedPrefix(lines_g, '
+             'len(lines_g), indent_str) and '
+             'ConcatAll(lines_g) == content)'),
+        ],
+        raises={errs.DiffXContentError:
+                'not old(content) and state_unchanged(self)',
+                errs.DiffXOptionValueChoiceError:
+                    'line_endings is not None and '
+                    'line_endings not in ("dos", "unix") and '
+                    'state_unchanged(self)',
+                LookupError: 'state_unchanged(self)',
+                UnicodeError: 'state_unchanged(self)',
+                TypeError: 'state_unchanged(self)',
+                AssertionError: 'state_unchanged(self)'},
+    )
+    engine.add(c)
+
+    def f_top(it, args, kw):
+        w = it.ctx.cell(args[0])
+        stack = it.ctx.cell(w.attrs['_stack'])
+        return it.ctx.cell(stack.items[-1]).items['encoding']
+    engine.spec_funcs['stack_top_encoding'] = VFunc(f_top, 'top')
+    return c
